@@ -284,6 +284,29 @@ fn snapshot_cases(ctx: &Ctx) -> Vec<(Case, bool)> {
             for_(list(vec![var("i"), var("v")]), range(int(0), var("n")), vec![assign(var("n"), int(10)), pv(var("v"))]),
             pv(var("n")),
         ]),
+        ("thirty iterations, continue on odd ones, break at the twenty-third", vec![
+            declare(var("seen"), list(vec![])),
+            for_(list(vec![var("i"), var("v")]), range(int(100), int(130)), vec![
+                if_(bin(Op::Eq, bin(Op::Mod, var("v"), int(2)), int(1)), vec![st(SK::Continue)], None),
+                if_(bin(Op::Eq, var("i"), int(22)), vec![st(SK::Break)], None),
+                op_assign(var("seen"), Op::Sum, list(vec![var("v")])),
+            ]),
+            pv(var("seen")),
+            declare(var("n"), int(0)),
+            while_(boolean(true), vec![op_assign(var("n"), Op::Sum, int(1)), if_(bin(Op::Lt, var("n"), int(37)), vec![block(vec![st(SK::Continue)])], None), st(SK::Break)]),
+            pv(var("n")),
+        ]),
+        ("return from the nineteenth iteration of the inner of two long loops", vec![
+            fn_decl("search", vec![], false, vec![
+                for_(list(vec![var("_"), var("a")]), range(int(0), int(25)), vec![
+                    for_(list(vec![var("_"), var("b")]), range(int(0), int(25)), vec![
+                        if_(bin(Op::Eq, bin(Op::Sum, bin(Op::Mul, var("a"), int(25)), var("b")), int(443)), vec![ret(list(vec![var("a"), var("b")]))], None),
+                    ]),
+                ]),
+                ret(null()),
+            ]),
+            pv(call(var("search"), vec![])),
+        ]),
         ("while condition re-evaluated with side effects", vec![
             declare(var("n"), int(0)),
             fn_decl("tick", vec![], false, vec![op_assign(var("n"), Op::Sum, int(1)), pv(var("n")), ret(var("n"))]),
@@ -345,6 +368,39 @@ fn snapshot_cases(ctx: &Ctx) -> Vec<(Case, bool)> {
     out
 }
 
+// `while` (and an `if` inside a loop) with conditions of every expression
+// kind, each of which is true exactly while n < 3: the condition is
+// evaluated afresh every time, whatever it is made of.
+fn condition_cases(ctx: &Ctx) -> Vec<(Case, bool)> {
+    let conds = [
+        "n < 3", "cnt() < 3", "$\"${s}\" != \"aaa\"", "$\"x${s}\" != \"xaaa\"", "\"aaa\" != $\"${s}\"", "$\"${s}${s}\" != \"aaaaaa\"", "$\"${$\"${s}\"}\" != \"aaa\"",
+        "s != \"aaa\"", "[n][0] < 3", "({\"v\": n}).v < 3", "o.k < 3", "o[\"k\"] < 3", "xs != [1, 2, 3]", "(0 .. n) != [0, 1, 2]", "s->len() < 3",
+        "(0 - n) > (0 - 3)", "n < 3 && true", "false || n < 3", "(fn () { return n < 3; })()", "(n * 2) < 6", "(n + 0) < 3", "s[0:] != \"aaa\"", "xs[:] != [1, 2, 3]",
+        "n->type() == \"int\" && n < 3", "[xs..] != [1, 2, 3]", "{o..} != {\"k\": 3}", "$\"${s}\"->len() < 3", "(s + \"\") != \"aaa\"", "[s] != [\"aaa\"]", "{\"s\": s} != {\"s\": \"aaa\"}",
+        "lim(n)", "(n < 3) == true", "(n >= 3) == false", "(n >= 3) != true",
+    ];
+    let pre = "n := 0\ns := \"\"\nxs := []\no := {\"k\": 0}\nfn cnt() {\n    return n\n}\nfn lim(v) {\n    return v < 3\n}\nfn step() {\n    n += 1\n    s = s + \"a\"\n    xs += [n]\n    o.k = n\n}\niters := 0\n";
+    let mut out = vec![];
+    for start in [0i64, 3] {
+        for cond in conds {
+            let init = if start == 0 { String::new() } else { "step()\nstep()\nstep()\n".to_string() };
+            let src = format!("{pre}{init}while {cond} {{\n    iters += 1\n    step()\n    if iters > 20 {{\n        print(\"runaway\")\n        break\n    }}\n}}\nprint(iters)\nprint(n)\n");
+            let want = if start == 0 { "3\n3\n" } else { "0\n3\n" };
+            ctx.label("while: condition kinds");
+            out.push((Case{property: "C07".into(), kind: "condition".into(), srcs: vec![src.into_bytes()], pred: Pred::Expect(Expect::ok(want.as_bytes().to_vec())), note: format!("while {cond}, starting at n = {start}")}, true));
+        }
+    }
+    for cond in conds {
+        let src = format!("{pre}a := 0\nb := 0\nc := 0\nfor [_, i] in 0 .. 6 {{\n    if {cond} {{\n        a += 1\n    }} else if i == 4 {{\n        b += 1\n    }} else {{\n        c += 1\n    }}\n    step()\n}}\nprint([a, b, c])\n");
+        ctx.label("if inside a loop: condition kinds");
+        // Conditions of the form `.. != <state at n = 3>` hold again for n > 3.
+        let ne = cond.contains("!=") && !cond.contains("n >=");
+        let want: &[u8] = if ne { b"[\n    5,\n    0,\n    1,\n]\n" } else { b"[\n    3,\n    1,\n    2,\n]\n" };
+        out.push((Case{property: "C07".into(), kind: "condition".into(), srcs: vec![src.into_bytes()], pred: Pred::Expect(Expect::ok(want.to_vec())), note: format!("if {cond} inside a six-turn loop")}, true));
+    }
+    out
+}
+
 pub fn run(ctx: &Ctx) {
     ctx.set_rule("all nestings of {bare block, if, else, else-if, while, for over list / string / object, call of a named / anonymous / method function} to depth 3 (quick: depth 4 sampled 1:24; thorough: depth 4 complete) with one of break / continue / return v / nothing at the innermost position, unguarded and guarded (taken from the second iteration on), traces before / inside / after every construct and after the jump; every truth assignment of 1..3-branch if chains with tracing conditions; loop bodies that overwrite, rebind, grow or range-assign the iterated container, while conditions with side effects, continue on the last iteration, jumps outside any target and inside a function called from a loop; oracle: reference interpreter (exact trace, return value, error iff reference error). Non-trivial = the jump crosses at least one construct before its target; distinct = distinct source texts");
     ctx.replay_corpus(None);
@@ -360,7 +416,22 @@ pub fn run(ctx: &Ctx) {
         cases.extend(nestings(ctx, 4, 1));
         ctx.mark_exhaustive("all nestings of depth 3 and 4");
     }
+    // A few nestings of depth 6 and 8 (every construct kind once).
+    for (j, guarded) in [(Jump::Break, true), (Jump::Continue, false), (Jump::Return, true), (Jump::None, false)] {
+        for rot in 0..CONSTRUCTS.len() {
+            for depth in [6usize, 8] {
+                let chain: Vec<&str> = (0..depth).map(|k| CONSTRUCTS[(rot + k * 3) % CONSTRUCTS.len()]).collect();
+                let prog = build(&chain, j, guarded);
+                let (label, nt) = classify(&chain, j);
+                ctx.label(&format!("deep: {label}"));
+                if let Some(c) = case_for(ctx, &prog, "deep_nesting", format!("{} / {:?}", chain.join(" > "), j), nt) {
+                    cases.push(c);
+                }
+            }
+        }
+    }
     cases.extend(chains(ctx));
     cases.extend(snapshot_cases(ctx));
+    cases.extend(condition_cases(ctx));
     ctx.judge_all(cases, Via::Cli, None);
 }
